@@ -482,6 +482,9 @@ def plan(tier, seed):
     for lp in ("once", "run"):
         specs.append(dict(name="deferred-%s" % lp, kind="def", loop=lp))
         specs.append(dict(name="task-raise-%s" % lp, kind="traise", loop=lp))
+    # once more with the library's debug tracing switched on
+    specs.append(dict(name="tracing-ops-random", kind="opsrandom", n=60 if tier == "quick" else 600, tracing=True))
+    specs.append(dict(name="tracing-recurring-random", kind="recrandom", n=100 if tier == "quick" else 1000, tracing=True))
     return specs
 
 
